@@ -322,6 +322,9 @@ class Ledger(metaclass=LedgerRegistry):
             other_branch = unhexlify(branch)[::-1]
             other_branch_on_left = bool((branch_positions >> i) & 1)
             if other_branch_on_left:
+                if other_branch == working_branch:
+                    # a node to the right of an equal node is the padding copy of an odd level, not part of the block
+                    return None
                 combined = other_branch + working_branch
             else:
                 combined = working_branch + other_branch
